@@ -235,6 +235,62 @@ def memo_rules(index: RepoIndex, rep, rule: str, eff, only_rel=None) -> None:
 
 
 
+def shared_mutable_constants(index: RepoIndex, rep, rule: str) -> None:
+    """a module-level object of a mutable class of the package (Transform, Agent, Grid, State,
+    a grid object) is only ever *read through* (`_TOP_LEFT.position`): when the object itself
+    is stored into a state, passed to a constructor or returned, every state built that way
+    shares it, and the in-place dynamics of one state move the others (and the next reset)"""
+    mutable = set()
+    for mod in index.modules.values():
+        if not mod.relpath.startswith('gym_gridverse/'):
+            continue
+        for c in mod.classes.values():
+            decs = [src(d) for d in c.node.decorator_list]
+            frozen = any('frozen=True' in d for d in decs)
+            is_enum = any(b.split('.')[-1] in ('Enum', 'IntEnum', 'Flag') for b in c.bases)
+            if not frozen and not is_enum:
+                mutable.add(c.name)
+    n_consts = 0
+    for mod in index.modules.values():
+        if not mod.relpath.startswith('gym_gridverse/'):
+            continue
+        consts = {}
+        for name, vals in mod.assigns.items():
+            if len(vals) == 1 and isinstance(vals[0], ast.Call) and \
+                    isinstance(vals[0].func, ast.Name) and vals[0].func.id in mutable and \
+                    not name.endswith('_registry'):
+                consts[name] = vals[0].func.id
+        if not consts:
+            continue
+        parents = {}
+        for n in ast.walk(mod.tree):
+            for ch in ast.iter_child_nodes(n):
+                parents[id(ch)] = n
+        for name, cname in sorted(consts.items()):
+            n_consts += 1
+            flows = []
+            for n in ast.walk(mod.tree):
+                if isinstance(n, ast.Name) and n.id == name and isinstance(n.ctx, ast.Load):
+                    p = parents.get(id(n))
+                    if isinstance(p, ast.Attribute) and p.value is n:
+                        # read through -- unless it is a mutator call on the shared object
+                        continue
+                    if isinstance(p, ast.Compare):
+                        continue
+                    flows.append(n)
+            rep.check(not flows, rule, mod.relpath, name,
+                      flows[0].lineno if flows else 1,
+                      f'{name} = {cname}(..)',
+                      f'the module-level {cname} `{name}` is handed on as an object '
+                      f'(line {flows[0].lineno if flows else 0}: `'
+                      f'{src(parents.get(id(flows[0]), flows[0]))[:80] if flows else ""}`): every '
+                      f'state built with it shares one mutable {cname}, so moving or turning one '
+                      f'agent in place moves the others and shifts where later resets start',
+                      f'{name} only read through')
+    rep.holds(rule, 'module-level mutable objects', f'{n_consts} module-level objects of mutable '
+              f'package classes checked')
+
+
 def one_object_per_cell(index: RepoIndex, rep, rule: str) -> None:
     """every place that fills grid cells from an object factory calls the factory once per cell:
     `Grid.from_shape` builds rows and cells by two nested comprehensions with the call in the
@@ -473,6 +529,12 @@ def run(index: RepoIndex, rep) -> None:
     rep.holds('C03.R7', 'scan', f'{n_fn} functions: no constructed default argument')
 
     one_object_per_cell(index, rep, 'C03.R8')
+    shared_mutable_constants(index, rep, 'C03.R8')
+    # a composite keeps its parts between calls: they are a list, not an iterator a call consumes
+    rep.rule('C03.R9', 'what a configured composite keeps between calls is not consumed by a '
+             'call: its parts are materialised, one per configured entry (C17.R6)', floor=3)
+    from .c17 import composite_parts
+    composite_parts(index, rep, 'C03.R9')
     # ---------------------------------------------------------------- R6
     component_decorators(index, rep, 'C03.R6')
     copy_protocol(index, rep, 'C03.R6')
